@@ -21,7 +21,7 @@ def thorough_extras(R, pid):
 # seeded mutants (tools/mutants.py) that each property's VC part has to catch; harmless ones must stay green
 MUTANTS_FOR = {
     "C16": ["m10", "m28", "m44", "m45", "m46", "m48", "h60"], "C03": ["m10", "m11b", "m7", "m11"], "C04": ["m12", "m13", "m14", "m15", "m50", "m51"],
-    "C02": ["m6", "m7", "m4"], "C01": ["m2", "m4"], "C05": ["m2"], "C06": ["m19", "m6"], "C07": ["m21", "m23"], "C08": ["m25"],
+    "C02": ["m6", "m7", "m4", "m52", "m53", "h61"], "C01": ["m2", "m4"], "C05": ["m2"], "C06": ["m19", "m6"], "C07": ["m21", "m23"], "C08": ["m25"],
     "C10": ["m28", "m31"], "C11": ["m31"], "C12": ["m6", "m35"], "C15": ["m41"], "C17": ["m46", "m48"],
 }
 
